@@ -120,6 +120,55 @@ def drive_systematic(n, w):
     return bad, len(us), len(cells) - 1
 
 
+def drive_seeded(rng, n, w):
+    """systematic_resample(n, w, random_state=k): whatever offset a seeded call uses, the result must be ONE comb (all teeth
+    share the offset), hence floor/ceil copies; equal seeds give equal results."""
+    from tempest.tools import systematic_resample
+    bad = []
+    s = np.sum(w.astype(LD))
+    c = np.cumsum(w.astype(LD) / s)
+    cprev = np.concatenate([[LD(0)], c[:-1]])
+    seen = set()
+    seeds = [0, 1, 2, int(rng.integers(3, 2 ** 31 - 1)), int(rng.integers(3, 1000))]
+    st0 = np.random.get_state()
+    try:
+        for rs in seeds:
+            try:
+                idx = np.asarray(systematic_resample(n, w.copy(), random_state=rs))
+                idx2 = np.asarray(systematic_resample(n, w.copy(), random_state=rs))
+            except Exception as e:
+                bad.append((f"seeded-exception-{type(e).__name__}", f"systematic_resample(n={n}, random_state={rs}) raised {e}", None))
+                break
+            if idx.shape != idx2.shape or not np.array_equal(idx, idx2):
+                bad.append(("seeded-call-not-reproducible", f"random_state={rs}: two calls return different index vectors", None))
+            if idx.shape != (n,) or idx.dtype.kind not in "iu" or idx.min() < 0 or idx.max() >= len(w):
+                bad.append(("syst-length", f"random_state={rs}: shape {idx.shape}, dtype {idx.dtype}", None))
+                break
+            k = np.arange(n, dtype=LD)
+            tol = LD(n) * (abs(LD(s) - 1) + LD(1e-12)) + LD(1e-9)
+            lo = float(np.max(n * cprev[idx] - k) - tol)
+            hi = float(np.min(n * c[idx] - k) + tol)
+            lastpos = int(np.flatnonzero(w > 0)[-1])
+            if idx[-1] == lastpos:      # teeth beyond the last positive weight may clamp to it
+                m_ = idx != lastpos
+                hi = float(np.min((n * c[idx] - k)[m_]) + tol) if m_.any() else 1.0
+            if lo > hi or hi < 0 or lo > 1:
+                cnt = np.bincount(idx, minlength=len(w))
+                nw = n * w / float(s)
+                j = int(np.argmax(np.abs(cnt - nw)))
+                bad.append(("seeded-call-not-a-comb", f"random_state={rs}, n={n}: no single offset u0 produces the returned indices (feasible u0 interval "
+                            f"[{lo:.6g}, {hi:.6g}]); e.g. index {j}: {int(cnt[j])} copies for n*w={float(nw[j]):.6g}", dict(random_state=rs)))
+                break
+            u0 = min(max(0.5 * (max(lo, 0.0) + min(hi, 1.0)), 0.0), 1 - 1e-16)
+            for cl, det in comb_check(n, w, u0, idx):
+                if cl in ("copies", "zero-weight-drawn", "monotone", "range", "length"):
+                    bad.append((f"syst-{cl}", f"random_state={rs}, n={n}: {det}", dict(random_state=rs)))
+            seen.add(idx.tobytes())
+    finally:
+        np.random.set_state(st0)
+    return bad, len(seeds)
+
+
 class _FakeClusterer:
     def predict(self, u):
         return np.zeros(len(u), dtype=int)
@@ -180,6 +229,12 @@ def _batch(seed, start, count, nmax):
         except Exception:
             bad, noff, ncell = [("exception", fmt_exc(), None)], 0, 0
         bad2 = []
+        try:
+            b3, nseeded = drive_seeded(rng, n, w)
+            bad2 += b3
+            desc["seeded_calls"] = nseeded
+        except Exception:
+            bad2.append(("exception", fmt_exc(), None))
         try:
             for scheme in ("syst", "mult"):
                 bad2 += drive_resampler(rng, n, w, scheme, bool(i % 2))
@@ -331,6 +386,7 @@ def run():
             ck.event("systematic_resample driven at a chosen offset", noff)
             ck.event("comb partition cells integrated", ncell)
             ck.event("Resampler.run on synthetic pool", 2)
+            ck.event("seeded systematic_resample calls checked to be one comb", desc.get("seeded_calls", 0))
             noffs += noff
             for key, what, wit in bad + bad2:
                 kk = key
